@@ -93,7 +93,8 @@ PROPS = {
     "C05": {
         "parts": [
             {"engine": "D", "crate": "d_kad", "harnesses": [
-                {"name": "c05_event_step", "covers": ["terminal", "still_pending", "value_returned", "split_returned", "mismatch_returned", "not_found_returned", "not_enough_returned", "timeout_returned", "same_peer_answers_twice"], "quick": {"max_paths": 200000, "timeout": 900}},
+                {"name": "c05_event_step", "covers": ["terminal", "still_pending", "value_returned", "split_returned", "mismatch_returned", "not_found_returned", "not_enough_returned", "timeout_returned", "same_peer_answers_twice"], "quick": {"max_paths": 200000, "timeout": 900},
+                 "thorough": {"env": {"C05_MAXV": 3, "C05_MAXR": 3}, "max_paths": 3000000, "timeout": 3400}},
                 {"name": "c05_dedup", "covers": ["both_waiting", "second_caller_got_value"], "quick": {"max_paths": 10000, "timeout": 600}},
             ]},
         ],
@@ -140,14 +141,14 @@ PROPS = {
     "C08": {
         "parts": [
             {"engine": "D", "crate": "d_net", "harnesses": [
-                {"name": "c08_add_multi", "covers": ["scheduled_some", "at_limit", "queued_and_scheduled"], "quick": {"max_paths": 100000, "timeout": 900}},
-                {"name": "c08_add_single", "covers": ["single_started", "single_not_started"], "quick": {"max_paths": 100000, "timeout": 600}},
-                {"name": "c08_expiry", "covers": ["some_expired", "none_expired", "dropped_queue_of_failed_holder"], "quick": {"max_paths": 100000, "timeout": 600}},
-                {"name": "c08_complete", "covers": ["arrival", "early"], "quick": {"max_paths": 100000, "timeout": 600}},
-                {"name": "c08_batch_dedupe", "covers": ["ran", "scheduled_some"], "quick": {"max_paths": 100000, "timeout": 600}},
+                {"name": "c08_add_multi", "thorough": {"max_paths": 1000000, "timeout": 3400, "seeds": [0, 1, 2]}, "covers": ["scheduled_some", "at_limit", "queued_and_scheduled"], "quick": {"max_paths": 100000, "timeout": 900}},
+                {"name": "c08_add_single", "thorough": {"max_paths": 1000000, "timeout": 3400, "seeds": [0, 1, 2]}, "covers": ["single_started", "single_not_started"], "quick": {"max_paths": 100000, "timeout": 600}},
+                {"name": "c08_expiry", "thorough": {"max_paths": 1000000, "timeout": 3400, "seeds": [0, 1, 2]}, "covers": ["some_expired", "none_expired", "dropped_queue_of_failed_holder"], "quick": {"max_paths": 100000, "timeout": 600}},
+                {"name": "c08_complete", "thorough": {"max_paths": 1000000, "timeout": 3400, "seeds": [0, 1, 2]}, "covers": ["arrival", "early"], "quick": {"max_paths": 100000, "timeout": 600}},
+                {"name": "c08_batch_dedupe", "thorough": {"max_paths": 1000000, "timeout": 3400, "seeds": [0, 1, 2]}, "covers": ["ran", "scheduled_some"], "quick": {"max_paths": 100000, "timeout": 600}},
                 {"name": "c08_farthest", "covers": ["kept", "dropped"], "quick": {"max_paths": 100000, "timeout": 600}},
                 {"name": "c09_range_follows", "covers": ["ran"], "quick": {"max_paths": 10000, "timeout": 600}},
-                {"name": "c08_progress", "covers": ["done"], "quick": {"max_paths": 100000, "timeout": 900}},
+                {"name": "c08_progress", "thorough": {"max_paths": 1000000, "timeout": 3400, "seeds": [0, 1, 2]}, "covers": ["done"], "quick": {"max_paths": 100000, "timeout": 900}},
             ]},
         ],
         "assumptions": COMMON_D_ASSUMPTIONS + [
@@ -322,9 +323,9 @@ PROPS = {
         "parts": [
             {"engine": "D", "crate": "d_net", "harnesses": [
                 {"name": "c10_put_step", "covers": ["below_capacity", "at_capacity_accept", "at_capacity_refuse"],
-                 "quick": {"max_paths": 20000, "timeout": 600}, "thorough": {"max_paths": 200000, "timeout": 3000}},
+                 "quick": {"max_paths": 20000, "timeout": 600}, "thorough": {"env": {"C10_MAXCAP": 4}, "max_paths": 1000000, "timeout": 3400, "seeds": [0, 1]}},
                 {"name": "c10_burst", "covers": ["both_accepted"],
-                 "quick": {"max_paths": 20000, "timeout": 600}},
+                 "quick": {"max_paths": 20000, "timeout": 600}, "thorough": {"env": {"C10_MAXCAP": 4, "C10_BURST": 3}, "max_paths": 1000000, "timeout": 3400}},
                 {"name": "c10_cleanup", "covers": ["applies", "not_applicable", "removed_some"],
                  "quick": {"max_paths": 20000, "timeout": 600}},
                 {"name": "c10_metrics", "covers": ["with_range", "without_range"],
